@@ -204,7 +204,7 @@ pub fn spawn_child_env(name: &str, backend: &str, prop: &str, tier: &str, env: V
         }
         Ok((code, ev))
     });
-    ChildRun { backend: backend.to_string(), handle: Some(handle) }
+    ChildRun { backend: name.to_string(), handle: Some(handle) }
 }
 
 pub fn join_children(rep: &mut Report, children: Vec<ChildRun>) {
